@@ -17,7 +17,7 @@ func init() {
 		Assume: []string{"reshape is excluded (C13: it follows the tensor's own data order)", "transposition of column-major tensors is covered by C03 (source F) and recorded there"}})
 }
 
-var lfAll = []string{"F", "Fc", "FS", "FT", "FM", "FR"}
+var lfAll = []string{"F", "Fc", "FS", "FT", "FM", "FR", "FL"}
 
 func runC16(r *core.Run) {
 	propPfx = "C16:"
